@@ -470,4 +470,53 @@ example : runL {} reuseRun = none := by decide
 example : (runL {} [.accept, .wait 0, .announce 0, .drop 0, .release 0, .accept, .discCb 0, .finish 0, .wait 1, .announce 1]).map (·.log) =
     some [.new 0, .disc 0, .new 1] := by decide
 
+/-- C11 / C13 (after /repo 9ab511e): whatever `Write` accepts reaches the connection the application currently knows as the
+    id's session, or a connection that is registered while *no* session of the id is open for the application (all earlier
+    ones have been reported as ended) — never a connection `k` while the callbacks still say that another connection `j`
+    is the live one. In every interleaving. -/
+theorem write_reaches_no_later_session (ls : List Label) (s : St) (h : runL {} ls = some s) (k : Nat)
+    (hw : writeTarget true s = some k) : openOf s.log = some (some k) ∨ openOf s.log = some none := by
+  have hI := inv_run ls s h
+  have hcl : s.closing = none := by
+    cases hc : s.closing with
+    | none => rfl
+    | some j => simp [writeTarget, hc] at hw
+  have he : s.entry = some k := by simpa [writeTarget, hcl] using hw
+  obtain ⟨o, ho, hko⟩ := hI.log hI.w
+  cases o with
+  | none => exact Or.inr ho
+  | some j =>
+    have hop : isOpen (phase s j) = true := (hko j).mpr rfl
+    left
+    rw [ho]
+    cases hp : phase s j with
+    | live =>
+      have : s.entry = some j := (hI.act j).mp (by rw [hp]; rfl)
+      rw [he] at this; cases this; rfl
+    | closing1 =>
+      have : s.entry = some j := (hI.act j).mp (by rw [hp]; rfl)
+      rw [he] at this; cases this; rfl
+    | closing2 =>
+      have : s.closing = some j := (hI.clo j).mp (by rw [hp]; rfl)
+      rw [hcl] at this; cases this
+    | hs p => rw [hp] at hop; cases hop
+    | announcing => rw [hp] at hop; cases hop
+    | closing3 => rw [hp] at hop; cases hop
+    | gone => rw [hp] at hop; cases hop
+
+/-- the premise is satisfiable, in both ways: the announced connection, and a connection admitted but not announced yet -/
+example : (runL {} [.accept, .wait 0, .announce 0]).map (fun s => (writeTarget true s, openOf s.log)) = some (some 0, some (some 0)) := by decide
+example : (runL {} [.accept, .wait 0, .announce 0, .drop 0, .release 0, .accept, .discCb 0, .finish 0]).map
+    (fun s => (writeTarget true s, openOf s.log)) = some (some 1, some none) := by decide
+
+/-- the schedule rounds `c11_leak` force on the real server: connection 0 has released the id, its end is not reported
+    yet, connection 1 is registered -/
+def leakRun : List Label := [.accept, .wait 0, .announce 0, .drop 0, .release 0, .accept]
+
+/-- before /repo 9ab511e (`Write` consults the table only): a write of the application, for which connection 0 is still the
+    session of the id, reaches connection 1; with the repair it fails -/
+theorem old_write_reaches_next_connection :
+    (runL {} leakRun).map (fun s => (writeTarget false s, openOf s.log)) = some (some 1, some (some 0)) ∧
+    (runL {} leakRun).map (writeTarget true) = some none := by decide
+
 end C13Fine
